@@ -452,7 +452,7 @@ class Body:
         if k == "bin":
             return ("bin", rv["op"], self.origin_op(rv["a"], bb, idx, depth), self.origin_op(rv["b"], bb, idx, depth), rv["ty"])
         if k == "un":
-            return ("un", rv["op"], self.origin_op(rv["a"], bb, idx, depth))
+            return fold(("un", rv["op"], self.origin_op(rv["a"], bb, idx, depth)))
         if k == "discr":
             return ("discr", self.origin_place(rv["place"], bb, idx, depth))
         if k == "agg":
@@ -612,7 +612,7 @@ def fold(t):
                 return ("const", ("int", a // b, ty))
             if op == "Rem" and b != 0 and a >= 0 and b > 0:
                 return ("const", ("int", a % b, ty))
-    elif k == "un":
+    elif k == "un" and t[1] != "PtrMetadata":
         a = _cint(t[2])
         if a is not None and t[1] == "Not" and t[2][1][2] == "bool":
             return ("const", ("int", 1 - a, "bool"))
@@ -658,10 +658,35 @@ def fold(t):
                 return ("agg", "adt", "std::ops::ControlFlow", "Continue", a[4], ("0",))
             if a[3] == "None":
                 return ("agg", "adt", "std::ops::ControlFlow", "Break", (a,), ("0",))
+    elif k == "call" and len(t[2]) == 1 and re.search(r"(ControlFlow::<B, C>::(is_break|is_continue)|Option::<T>::(is_some|is_none)|Result::<T, E>::(is_ok|is_err))$", t[1]):
+        # a predicate on a value whose variant is known (typically after a helper returning `Ok(ControlFlow::Continue(()))` was inlined)
+        a = t[2][0]
+        while isinstance(a, tuple) and a and a[0] in ("ref", "deref", "copy") and len(a) > 1 and isinstance(a[1], tuple):
+            a = a[1]
+        if isinstance(a, tuple) and a[0] == "agg" and a[1] == "adt" and a[2] in ("std::ops::ControlFlow", "std::option::Option", "std::result::Result"):
+            pos = {"is_break": "Break", "is_continue": "Continue", "is_some": "Some", "is_none": "None", "is_ok": "Ok", "is_err": "Err"}[t[1].rsplit("::", 1)[1]]
+            return ("const", ("int", 1 if a[3] == pos else 0, "bool"))
     elif k == "call" and len(t[2]) == 1 and t[1].endswith("slice::<impl [T]>::len"):
         a = t[2][0]
         if isinstance(a, tuple) and a[0] == "const" and a[1][0] == "bytes":
             return ("const", ("int", len(a[1][1]), "usize"))
+    elif (k == "un" and t[1] == "PtrMetadata") or (k == "call" and len(t[2]) == 1 and t[1].endswith("slice::<impl [T]>::len")):
+        # the length of an item of `x.chunks_exact(n)` is n
+        a = t[2] if k == "un" else t[2][0]
+        while isinstance(a, tuple) and a and a[0] in ("ref", "deref", "copy") and len(a) > 1 and isinstance(a[1], tuple):
+            a = a[1]
+        if isinstance(a, tuple) and a and a[0] == "somepayload" and isinstance(a[1], tuple) and a[1] and a[1][0] == "call" and \
+                re.search(r"ChunksExact<'a, T> as std::iter::Iterator>::next$", a[1][1]):
+            ch = a[1][2][0] if a[1][2] else None
+            for _ in range(6):
+                if isinstance(ch, tuple) and ch and ch[0] in ("ref", "deref", "copy") and len(ch) > 1 and isinstance(ch[1], tuple):
+                    ch = ch[1]
+                elif isinstance(ch, tuple) and ch and ch[0] == "call" and ch[1].endswith("IntoIterator>::into_iter") and len(ch[2]) == 1:
+                    ch = ch[2][0]      # an iterator's own into_iter is the identity
+                else:
+                    break
+            if isinstance(ch, tuple) and ch and ch[0] == "call" and ch[1].endswith("slice::<impl [T]>::chunks_exact") and len(ch[2]) == 2 and _cint(ch[2][1]) is not None:
+                return ("const", ("int", _cint(ch[2][1]), "usize"))
     elif k == "discr":
         inner = t[1]
         if isinstance(inner, tuple) and inner[0] == "call" and inner[1].endswith("FromResidual<std::result::Result<std::convert::Infallible, E>>>::from_residual"):
@@ -841,8 +866,13 @@ def _closure_of_operand(B, bi, op):
     return None
 
 
+_ABSORBED = set()   # closure bodies that were expanded into the function that builds them
+
+
 def _copy_body(B, C, lo, bo, dest, cont, line):
     """Append C's blocks to B (locals at offset lo, blocks at offset bo); `return` stores C's _0 into `dest` and jumps to `cont`."""
+    if C.get("kind") == "closure":
+        _ABSORBED.add(C["path"])
     new_blocks = []
     for cb in C["blocks"]:
         nb = {"cleanup": cb["cleanup"], "stmts": [], "term": None}
@@ -954,11 +984,52 @@ def _resolve_closure_local(B, op, depth=0):
     return None
 
 
-def _expand_call_once(B, bi, t, by_path):
+def _expand_call_once(B, bi, t, by_path, adts=None):
     """`dest = FnOnce::call_once(f, (a, b))` (also Fn::call / FnMut::call_mut) where f is a closure built in this body (typically handed
     to a small generic helper that has just been inlined) becomes the closure's body with its parameters bound: what the closure does is
     then visible in place, in order."""
     if len(t["args"]) != 2 or t.get("t") is None:
+        return False
+    c0 = None
+    op0 = t["args"][0]
+    for _ in range(8):
+        if not isinstance(op0, dict):
+            break
+        if "const" in op0:
+            c0 = op0["const"]
+            break
+        pl0 = op0.get("move") or op0.get("copy")
+        if pl0 is None or pl0["p"]:
+            break
+        d0 = _unique_def(B, pl0["l"])
+        if d0 is None or d0["rv"]["k"] != "use":
+            break
+        op0 = d0["rv"]["op"]
+    if c0 is not None and "fn" in c0 and adts is not None:
+        # a tuple-variant / tuple-struct constructor used as a function value (`rest_as(body, Command::Query)`): the call builds the variant
+        pth = c0["fn"].get("path", "")
+        cand = []
+        if "::" in pth:
+            ap, vn = pth.rsplit("::", 1)
+            a_ = adts.get(ap)
+            if a_ is not None:
+                cand = [(ap, v_) for v_ in a_.get("variants", []) if v_["name"] == vn]
+        a_ = adts.get(pth)
+        if not cand and a_ is not None and a_.get("kind") == "struct" and len(a_.get("variants", [])) == 1:
+            cand = [(pth, a_["variants"][0])]
+        tp = t["args"][1].get("move") or t["args"][1].get("copy")
+        if cand and tp is not None and not tp["p"]:
+            defs = [s_ for s_ in B["blocks"][bi]["stmts"] if s_["k"] == "assign" and s_["lhs"]["l"] == tp["l"] and not s_["lhs"]["p"]]
+            if len(defs) == 1 and defs[0]["rv"]["k"] == "agg" and defs[0]["rv"].get("ak") == "tuple":
+                ap, v_ = cand[0]
+                flds = defs[0]["rv"]["fields"]
+                if len(flds) == len(v_.get("fields", [])) and all(f_["name"] == str(i_) for i_, f_ in enumerate(v_["fields"])):
+                    line = t.get("line", 0)
+                    blk = B["blocks"][bi]
+                    blk["stmts"].append({"k": "assign", "lhs": t["dest"], "rv": {"k": "agg", "ak": "adt", "adt": ap, "variant": int(v_.get("idx", 0)), "vname": v_["name"],
+                                                                                "fnames": [f_["name"] for f_ in v_["fields"]], "active": None, "fields": list(flds)}, "line": line, "exp": None})
+                    blk["term"] = {"k": "goto", "t": t["t"], "line": line, "exp": None, "inlined": pth}
+                    return True
         return False
     co = _resolve_closure_local(B, t["args"][0])
     if co is None or co[0] not in by_path:
@@ -1000,6 +1071,260 @@ def _expand_call_once(B, bi, t, by_path):
     return True
 
 
+def _unique_def(B, l):
+    """the single statement that defines local l (no projection) in the whole body, or None (also None when a call defines it)"""
+    defs = [s_ for bk in B["blocks"] for s_ in bk["stmts"] if s_["k"] == "assign" and s_["lhs"]["l"] == l and not s_["lhs"]["p"]]
+    ncall = sum(1 for bk in B["blocks"] if bk["term"]["k"] == "call" and bk["term"]["dest"]["l"] == l and not bk["term"]["dest"]["p"])
+    return defs[0] if len(defs) == 1 and not ncall else None
+
+
+def _array_behind_iter(B, bi, it_l):
+    """When local it_l is `&mut it` with `it = IntoIterator::into_iter(ARR)` (or `<[T]>::iter(&ARR)`) and ARR is, through moves, an array
+    aggregate built in this body: the list of its element operands; else None."""
+    d = _unique_def(B, it_l)
+    if d is None or d["rv"]["k"] != "ref" or d["rv"]["place"]["p"]:
+        return None
+    itl = d["rv"]["place"]["l"]
+    calls = [bk["term"] for bk in B["blocks"] if bk["term"]["k"] == "call" and bk["term"]["dest"]["l"] == itl and not bk["term"]["dest"]["p"]]
+    if len(calls) != 1 or "indirect" in calls[0]["func"] or len(calls[0]["args"]) != 1:
+        return None
+    if any(s_["k"] == "assign" and s_["lhs"]["l"] == itl and not s_["lhs"]["p"] for bk in B["blocks"] for s_ in bk["stmts"]):
+        return None
+    pth = calls[0]["func"]["path"]
+    if not (pth.endswith("IntoIterator::into_iter") and "; " in ((calls[0].get("arg_tys") or [""])[0])):
+        return None
+    op = calls[0]["args"][0]
+    for _ in range(6):
+        pl = op.get("move") or op.get("copy")
+        if pl is None or pl["p"]:
+            return None
+        dd = _unique_def(B, pl["l"])
+        if dd is None:
+            return None
+        if dd["rv"]["k"] == "agg" and dd["rv"].get("ak") == "array":
+            return list(dd["rv"]["fields"])
+        if dd["rv"]["k"] != "use":
+            return None
+        op = dd["rv"]["op"]
+    return None
+
+
+def _unroll_try_fold(B, bi, t, C, co, with_acc, elems, line):
+    """try_fold / try_for_each over an array literal: the closure body once per element, in order, leaving at the first Err"""
+    rty = C["locals"][0]["ty"]
+    item_l = 3 if with_acc else 2
+    n0 = len(B["locals"])
+    B["locals"] = B["locals"] + [{"ty": C["locals"][2].get("ty", "") if with_acc else "()"}]
+    ACC = n0
+    def A(lhs, rv):
+        return {"k": "assign", "lhs": lhs if isinstance(lhs, dict) else {"l": lhs, "p": []}, "rv": rv, "line": line, "exp": None}
+    def G(tgt):
+        return {"k": "goto", "t": tgt, "line": line, "exp": None}
+    nb = len(C["blocks"])
+    per = 3 + nb                       # bind, after, cont, body...
+    bo = len(B["blocks"])
+    DONE = bo + per * len(elems)
+    ERRS = DONE + 1                    # one err block per element follows
+    UNR = ERRS + len(elems)
+    new_blocks = []
+    err_blocks = []
+    for k, el in enumerate(elems):
+        base = bo + per * k
+        BIND, AFTER, CONT, BODY = base, base + 1, base + 2, base + 3
+        nxt = bo + per * (k + 1) if k + 1 < len(elems) else DONE
+        lo = len(B["locals"])
+        B["locals"] = B["locals"] + [dict(l) for l in C["locals"]] + [{"ty": rty}, {"ty": "isize"}]
+        R, D2 = len(B["locals"]) - 2, len(B["locals"]) - 1
+        _SUB.clear()
+        _POWNER[0] = co[0]
+        body_blocks = _copy_body(B, C, lo, BODY, {"l": R, "p": []}, AFTER, line)
+        _POWNER[0] = None
+        bind = []
+        if co[1] is not None:
+            if str(C["locals"][1].get("ty", "")).startswith("&"):
+                bind.append(A(lo + 1, {"k": "ref", "place": {"l": co[1], "p": []}, "mut": str(C["locals"][1]["ty"]).startswith("&mut")}))
+            else:
+                bind.append(A(lo + 1, {"k": "use", "op": {"copy": {"l": co[1], "p": []}}}))
+        if with_acc:
+            bind.append(A(lo + 2, {"k": "use", "op": {"move": {"l": ACC, "p": []}}}))
+        pl = el.get("move") or el.get("copy")
+        bind.append(A(lo + item_l, {"k": "use", "op": ({"copy": pl} if pl is not None else el)}))
+        new_blocks.append({"cleanup": False, "stmts": bind, "term": G(BODY)})
+        new_blocks.append({"cleanup": False, "stmts": [A(D2, {"k": "discr", "place": {"l": R, "p": []}, "of": rty})],
+                           "term": {"k": "switch", "discr": {"move": {"l": D2, "p": []}}, "dty": "isize", "vals": ["0", "1"], "tgts": [CONT, ERRS + k], "otherwise": UNR, "line": line, "exp": None}})
+        cont_stmts = [A(ACC, {"k": "use", "op": {"move": {"l": R, "p": [{"dc": 0, "n": "Ok"}, {"f": 0, "n": "0", "ty": B["locals"][ACC]["ty"], "of": rty}]}}})] if with_acc else []
+        new_blocks.append({"cleanup": False, "stmts": cont_stmts, "term": G(nxt)})
+        new_blocks.extend(body_blocks)
+        err_blocks.append({"cleanup": False, "stmts": [A(t["dest"], {"k": "use", "op": {"move": {"l": R, "p": []}}})], "term": G(t["t"])})
+    ok_field = {"move": {"l": ACC, "p": []}} if with_acc else {"const": {"ty": "()", "dbg": "Val(ZeroSized, ())"}}
+    done = {"cleanup": False, "stmts": [A(t["dest"], {"k": "agg", "ak": "adt", "adt": "std::result::Result", "variant": 0, "vname": "Ok", "fnames": ["0"], "active": None, "fields": [ok_field]})],
+            "term": G(t["t"])}
+    unr = {"cleanup": False, "stmts": [], "term": {"k": "unreachable", "line": line, "exp": None}}
+    B["blocks"] = B["blocks"] + new_blocks + [done] + err_blocks + [unr]
+    blk = B["blocks"][bi]
+    if with_acc:
+        blk["stmts"].append(A(ACC, {"k": "use", "op": t["args"][1]}))
+    blk["term"] = {"k": "goto", "t": bo, "line": line, "exp": None, "inlined": co[0]}
+    return True
+
+
+def _expand_map_or_else(B, bi, t, by_path, lazy_default):
+    """`dest = opt.map_or_else(D, F)` / `opt.map_or(d, F)` with local closures becomes
+         switch discriminant(opt) { None => dest = D() | d, Some => dest = F(payload) }"""
+    if len(t["args"]) != 3 or t.get("t") is None:
+        return False
+    r_pl = t["args"][0].get("move") or t["args"][0].get("copy")
+    if r_pl is None or r_pl["p"]:
+        return False
+    cf = _resolve_closure_local(B, t["args"][2])
+    if cf is None or cf[0] not in by_path or by_path[cf[0]]["arg_count"] != 2:
+        return False
+    cd = None
+    if lazy_default:
+        cd = _resolve_closure_local(B, t["args"][1])
+        if cd is None or cd[0] not in by_path or by_path[cd[0]]["arg_count"] != 1:
+            return False
+    F = by_path[cf[0]]
+    D = by_path[cd[0]] if cd else None
+    if F is B or D is B:
+        return False
+    rty = B["locals"][r_pl["l"]].get("ty", "")
+    line = t.get("line", 0)
+    def A(lhs, rv):
+        return {"k": "assign", "lhs": lhs if isinstance(lhs, dict) else {"l": lhs, "p": []}, "rv": rv, "line": line, "exp": None}
+    def G(tgt):
+        return {"k": "goto", "t": tgt, "line": line, "exp": None}
+    def env(C, co, lo):
+        if co[1] is None:
+            return []
+        if str(C["locals"][1].get("ty", "")).startswith("&"):
+            return [A(lo + 1, {"k": "ref", "place": {"l": co[1], "p": []}, "mut": str(C["locals"][1]["ty"]).startswith("&mut")})]
+        return [A(lo + 1, {"k": "use", "op": {"move": {"l": co[1], "p": []}}})]
+    B["locals"] = B["locals"] + [{"ty": "isize"}]
+    dl = len(B["locals"]) - 1
+    bo = len(B["blocks"])
+    NONE, SOME, UNR = bo, bo + 1, bo + 2
+    nb_start = bo + 3
+    # Some side
+    lo_f = len(B["locals"])
+    B["locals"] = B["locals"] + [dict(l) for l in F["locals"]]
+    _SUB.clear()
+    _POWNER[0] = cf[0]
+    f_blocks = _copy_body(B, F, lo_f, nb_start, t["dest"], t["t"], line)
+    _POWNER[0] = None
+    some_stmts = env(F, cf, lo_f) + [A(lo_f + 2, {"k": "use", "op": {"move": {"l": r_pl["l"], "p": [{"dc": 1, "n": "Some"}, {"f": 0, "n": "0", "ty": F["locals"][2].get("ty", ""), "of": rty}]}}})]
+    some_blk = {"cleanup": False, "stmts": some_stmts, "term": G(nb_start)}
+    d_blocks = []
+    if D is not None:
+        lo_d = len(B["locals"])
+        B["locals"] = B["locals"] + [dict(l) for l in D["locals"]]
+        d_start = nb_start + len(f_blocks)
+        _POWNER[0] = cd[0]
+        d_blocks = _copy_body(B, D, lo_d, d_start, t["dest"], t["t"], line)
+        _POWNER[0] = None
+        none_blk = {"cleanup": False, "stmts": env(D, cd, lo_d), "term": G(d_start)}
+    else:
+        none_blk = {"cleanup": False, "stmts": [A(t["dest"], {"k": "use", "op": t["args"][1]})], "term": G(t["t"])}
+    unr = {"cleanup": False, "stmts": [], "term": {"k": "unreachable", "line": line, "exp": None}}
+    B["blocks"] = B["blocks"] + [none_blk, some_blk, unr] + f_blocks + d_blocks
+    blk = B["blocks"][bi]
+    blk["stmts"].append(A(dl, {"k": "discr", "place": {"l": r_pl["l"], "p": []}, "of": rty}))
+    blk["term"] = {"k": "switch", "discr": {"move": {"l": dl, "p": []}}, "dty": "isize", "vals": ["0", "1"], "tgts": [NONE, SOME], "otherwise": UNR, "line": line, "exp": None, "inlined": cf[0]}
+    return True
+
+
+def _next_rpath(it_ty):
+    """the resolved name rustc gives `Iterator::next` on the std slice iterators (what a `for` loop over them shows), else None"""
+    m = re.match(r"^(?:&mut )?std::slice::(ChunksExact|Chunks|Iter)<", it_ty or "")
+    return "<std::slice::%s<'a, T> as std::iter::Iterator>::next" % m.group(1) if m else None
+
+
+def _expand_extend_map(B, bi, t, by_path):
+    """`v.extend(it.map(|x| body))` with a local closure becomes the loop it stands for,
+         loop { match Iterator::next(&mut it) { None => break, Some(x) => Vec::push(&mut *v, body(x)) } }
+    so that filling a vector through an iterator pipeline and through a `for` loop with `push` are the same shape."""
+    if len(t["args"]) != 2 or t.get("t") is None:
+        return False
+    v_pl = t["args"][0].get("move") or t["args"][0].get("copy")
+    m_pl = t["args"][1].get("move") or t["args"][1].get("copy")
+    if v_pl is None or v_pl["p"] or m_pl is None or m_pl["p"]:
+        return False
+    # the iterator handed to extend is, through moves, the result of one Iterator::map call
+    ml = m_pl["l"]
+    bm = None
+    for _ in range(6):
+        cs = [i_ for i_, bk in enumerate(B["blocks"]) if bk["term"]["k"] == "call" and bk["term"]["dest"]["l"] == ml and not bk["term"]["dest"]["p"]]
+        if len(cs) == 1:
+            bm = cs[0]
+            break
+        d = _unique_def(B, ml)
+        if d is None or d["rv"]["k"] != "use":
+            return False
+        q = d["rv"]["op"].get("move") or d["rv"]["op"].get("copy")
+        if q is None or q["p"]:
+            return False
+        ml = q["l"]
+    if bm is None:
+        return False
+    tm = B["blocks"][bm]["term"]
+    if "indirect" in tm["func"] or not tm["func"]["path"].endswith("iter::Iterator::map") or len(tm["args"]) != 2 or tm.get("t") is None:
+        return False
+    in_pl = tm["args"][0].get("move") or tm["args"][0].get("copy")
+    co = _resolve_closure_local(B, tm["args"][1])
+    if in_pl is None or in_pl["p"] or co is None or co[0] not in by_path:
+        return False
+    C = by_path[co[0]]
+    if C is B or C["arg_count"] != 2 or (_has_loop(C) and _in_cycle(B, bi)):
+        return False
+    line = t.get("line", 0)
+    elem_ty = C["locals"][0].get("ty", "")
+    item_ty = C["locals"][2].get("ty", "")
+    opt_ty = "std::option::Option<%s>" % item_ty
+    it_ty = (tm.get("arg_tys") or [B["locals"][in_pl["l"]].get("ty", "")])[0]
+    vref_ty = (t.get("arg_tys") or [""])[0]
+    ga = (t["func"].get("rgargs") or [elem_ty, "std::alloc::Global"])[:2]
+    n0 = len(B["locals"])
+    B["locals"] = B["locals"] + [{"ty": "&mut " + it_ty}, {"ty": opt_ty}, {"ty": "isize"}, {"ty": elem_ty}, {"ty": vref_ty}, {"ty": "()"}]
+    RR, NX, D1, R, VR, U = n0, n0 + 1, n0 + 2, n0 + 3, n0 + 4, n0 + 5
+    lo = len(B["locals"])
+    B["locals"] = B["locals"] + [dict(l) for l in C["locals"]]
+    bo = len(B["blocks"])
+    HEAD, TEST, DONE, BIND, PUSH, UNR, BODY = bo, bo + 1, bo + 2, bo + 3, bo + 4, bo + 5, bo + 6
+    _SUB.clear()
+    _POWNER[0] = co[0]
+    body_blocks = _copy_body(B, C, lo, BODY, {"l": R, "p": []}, PUSH, line)
+    _POWNER[0] = None
+    def A(lhs, rv):
+        return {"k": "assign", "lhs": lhs if isinstance(lhs, dict) else {"l": lhs, "p": []}, "rv": rv, "line": line, "exp": None}
+    def G(tgt):
+        return {"k": "goto", "t": tgt, "line": line, "exp": None}
+    head = {"cleanup": False, "stmts": [A(RR, {"k": "ref", "mut": True, "place": {"l": in_pl["l"], "p": []}})],
+            "term": {"k": "call", "func": {"path": "std::iter::Iterator::next", "gargs": [it_ty], "local": False, "trait": "std::iter::Iterator", "name": "next", "rpath": _next_rpath(it_ty)},
+                     "args": [{"move": {"l": RR, "p": []}}], "arg_tys": ["&mut " + it_ty], "dest": {"l": NX, "p": []}, "t": TEST, "unwind": t.get("unwind"), "fn_line": line, "line": line,
+                     "exp": None, "inlined": "extend"}}
+    test = {"cleanup": False, "stmts": [A(D1, {"k": "discr", "place": {"l": NX, "p": []}, "of": opt_ty})],
+            "term": {"k": "switch", "discr": {"move": {"l": D1, "p": []}}, "dty": "isize", "vals": ["0", "1"], "tgts": [DONE, BIND], "otherwise": UNR, "line": line, "exp": None}}
+    done = {"cleanup": False, "stmts": [A(t["dest"], {"k": "use", "op": {"const": {"ty": "()", "dbg": "Val(ZeroSized, ())"}}})], "term": G(t["t"])}
+    bind_stmts = []
+    if co[1] is not None:
+        if str(C["locals"][1].get("ty", "")).startswith("&"):
+            bind_stmts.append(A(lo + 1, {"k": "ref", "place": {"l": co[1], "p": []}, "mut": str(C["locals"][1]["ty"]).startswith("&mut")}))
+        else:
+            bind_stmts.append(A(lo + 1, {"k": "use", "op": {"copy": {"l": co[1], "p": []}}}))
+    bind_stmts.append(A(lo + 2, {"k": "use", "op": {"copy": {"l": NX, "p": [{"dc": 1, "n": "Some"}, {"f": 0, "n": "0", "ty": item_ty, "of": opt_ty}]}}}))
+    bind = {"cleanup": False, "stmts": bind_stmts, "term": G(BODY)}
+    pushf = {"path": "std::vec::Vec::<T, A>::push", "gargs": list(ga), "local": False, "name": "push", "impl_self": "std::vec::Vec<T, A>",
+             "rpath": "std::vec::Vec::<T, A>::push", "rgargs": list(ga), "rlocal": False, "rkind": "Item", "rimpl_self": "std::vec::Vec<T, A>"}
+    push = {"cleanup": False, "stmts": [A(VR, {"k": "ref", "mut": True, "place": {"l": v_pl["l"], "p": ["deref"]}})],
+            "term": {"k": "call", "func": pushf, "args": [{"move": {"l": VR, "p": []}}, {"move": {"l": R, "p": []}}], "arg_tys": [vref_ty, elem_ty], "dest": {"l": U, "p": []},
+                     "t": HEAD, "unwind": t.get("unwind"), "fn_line": line, "line": line, "exp": None, "inlined": "extend"}}
+    unr = {"cleanup": False, "stmts": [], "term": {"k": "unreachable", "line": line, "exp": None}}
+    B["blocks"] = B["blocks"] + [head, test, done, bind, push, unr] + body_blocks
+    B["blocks"][bm]["term"] = {"k": "goto", "t": tm["t"], "line": tm.get("line", line), "exp": None, "inlined": "map"}
+    B["blocks"][bi]["term"] = {"k": "goto", "t": HEAD, "line": line, "exp": None, "inlined": co[0]}
+    return True
+
+
 def _expand_try_fold(B, bi, t, by_path, with_acc):
     """`dest = iter.try_fold(init, |acc, x| body)` / `dest = iter.try_for_each(|x| body)` with a local closure returning a Result becomes
     the loop it stands for:
@@ -1019,6 +1344,9 @@ def _expand_try_fold(B, bi, t, by_path, with_acc):
     if _has_loop(C) and _in_cycle(B, bi):
         return False
     line = t.get("line", 0)
+    arr = _array_behind_iter(B, bi, it_pl["l"])
+    if arr is not None and 0 < len(arr) <= 24:
+        return _unroll_try_fold(B, bi, t, C, co, with_acc, arr, line)
     rty = C["locals"][0]["ty"]
     item_l = 3 if with_acc else 2
     item_ty = C["locals"][item_l].get("ty", "")
@@ -1041,7 +1369,7 @@ def _expand_try_fold(B, bi, t, by_path, with_acc):
     def G(tgt):
         return {"k": "goto", "t": tgt, "line": line, "exp": None}
     head = {"cleanup": False, "stmts": [A(RR, {"k": "ref", "mut": True, "place": {"l": it_pl["l"], "p": ["deref"]}})],
-            "term": {"k": "call", "func": {"path": "std::iter::Iterator::next", "gargs": [it_ty.replace("&mut ", "", 1)], "local": False, "trait": "std::iter::Iterator", "name": "next", "rpath": None},
+            "term": {"k": "call", "func": {"path": "std::iter::Iterator::next", "gargs": [it_ty.replace("&mut ", "", 1)], "local": False, "trait": "std::iter::Iterator", "name": "next", "rpath": _next_rpath(it_ty)},
                      "args": [{"move": {"l": RR, "p": []}}], "arg_tys": [it_ty], "dest": {"l": NX, "p": []}, "t": TEST, "unwind": t.get("unwind"), "fn_line": line, "line": line,
                      "exp": None, "inlined": "try_fold"}}
     test = {"cleanup": False, "stmts": [A(D1, {"k": "discr", "place": {"l": NX, "p": []}, "of": opt_ty})],
@@ -1452,6 +1780,36 @@ def _expand_map(B, bi, t, by_path, adts, kind):
     return True
 
 
+def _inline_simple_consts(facts):
+    """`x = const PATH` for a named constant that the exporter left unevaluated (tuples, arrays of tuples, ...) and whose own body is a
+    single `_0 = <aggregate / use of literals>`: the statement gets that right-hand side, so that `let (a, b) = ZEROES;` reads as
+    `(0, 0)` to the origin engine."""
+    simple = {}
+    for c in facts["bodies"]:
+        if c.get("kind") != "const" or len(c["blocks"]) != 1 or c["blocks"][0]["term"]["k"] != "return":
+            continue
+        st = [x for x in c["blocks"][0]["stmts"] if x["k"] == "assign"]
+        if len(st) != 1 or st[0]["lhs"]["l"] != 0 or st[0]["lhs"]["p"]:
+            continue
+        rv = st[0]["rv"]
+        ops = rv.get("fields", []) if rv["k"] == "agg" else ([rv.get("op")] if rv["k"] == "use" else None)
+        if ops is None or any(not (isinstance(o, dict) and "const" in o and "uneval" not in o["const"]) for o in ops):
+            continue
+        simple[c["path"]] = rv
+    n = 0
+    if not simple:
+        return 0
+    for b in facts["bodies"]:
+        for bk in b["blocks"]:
+            for st in bk["stmts"]:
+                if st["k"] == "assign" and st["rv"]["k"] == "use" and isinstance(st["rv"].get("op"), dict) and "const" in st["rv"]["op"]:
+                    u = st["rv"]["op"]["const"].get("uneval")
+                    if u in simple:
+                        st["rv"] = json.loads(json.dumps(simple[u]))
+                        n += 1
+    return n
+
+
 def inline_helpers(facts, is_new, max_rounds=6):
     """Inline calls to `new helper` functions (local bodies for which is_new(path) holds) into their callers, on
     the raw exported MIR: the callee's locals and blocks are appended (renumbered), arguments become assignments
@@ -1491,13 +1849,23 @@ def inline_helpers(facts, is_new, max_rounds=6):
                         done.append((B["path"], "map"))
                         changed = True
                     continue
+                if cal == "<std::vec::Vec<T, A> as std::iter::Extend<T>>::extend" and "::tests::" not in B["path"]:
+                    if _expand_extend_map(B, bi, t, by_path):
+                        done.append((B["path"], "extend"))
+                        changed = True
+                    continue
+                if cal in ("std::option::Option::<T>::map_or_else", "std::option::Option::<T>::map_or") and "::tests::" not in B["path"]:
+                    if _expand_map_or_else(B, bi, t, by_path, cal.endswith("map_or_else")):
+                        done.append((B["path"], "map_or_else"))
+                        changed = True
+                    continue
                 if re.search(r"iter::Iterator::(try_fold|try_for_each)$", t["func"]["path"]) and "::tests::" not in B["path"]:
                     if _expand_try_fold(B, bi, t, by_path, t["func"]["path"].endswith("try_fold")):
                         done.append((B["path"], "try_fold"))
                         changed = True
                     continue
                 if re.search(r"ops::(FnOnce::call_once|FnMut::call_mut|Fn::call)$", t["func"]["path"]) and "::tests::" not in B["path"]:
-                    if _expand_call_once(B, bi, t, by_path):
+                    if _expand_call_once(B, bi, t, by_path, adts):
                         done.append((B["path"], "call_once"))
                         changed = True
                     continue
@@ -1549,6 +1917,8 @@ class Program:
         if isinstance(facts, str):
             facts = json.load(open(facts))
         self.inlined = []
+        self.absorbed_new_closures = set()
+        self.absorbed_dead_closures = set()
         try:
             import os
             kp = os.path.join(os.path.dirname(os.path.dirname(os.path.abspath(__file__))), "spec", "known_fns.json")
@@ -1563,13 +1933,30 @@ class Program:
             def is_new(path):
                 # generic parameter names are not part of a function's identity (moving a method between impl blocks renames them)
                 return _norm_generics(path) not in known and "::tests::" not in path and "{closure" not in path
+            _inline_simple_consts(facts)
+            _ABSORBED.clear()
             self.inlined = inline_helpers(facts, is_new)
+            # closures that did not exist on the pinned tree and whose body now sits, expanded, in the function that builds them: their
+            # code is analysed there; the stand-alone copy would only report the same sites a second time under another name
+            self.absorbed_new_closures = {c_ for c_ in _ABSORBED if _norm_generics(c_) not in known}
+            # ... and closures (whatever their name) that are no longer handed to any call after the expansions: nothing can run the
+            # stand-alone body any more
+            still = set()
+            for b_ in facts["bodies"]:
+                for bk_ in b_["blocks"]:
+                    t_ = bk_["term"]
+                    if t_["k"] == "call":
+                        for a_ in t_["args"]:
+                            r_ = _resolve_closure_local(b_, a_) if isinstance(a_, dict) else None
+                            if r_ is not None:
+                                still.add(r_[0])
+            self.absorbed_dead_closures = {c_ for c_ in _ABSORBED if c_ not in still}
             if self.inlined:
                 # closures of an inlined helper that has one caller are that caller's closures now (so that a site inside
                 # them keeps the identity it had before the helper was extracted)
                 callers = {}
                 for f_, c_ in self.inlined:
-                    if c_ not in ("map", "and_then", "or_else", "unwrap_or_else", "call_once", "try_fold"):
+                    if c_ not in ("map", "and_then", "or_else", "unwrap_or_else", "call_once", "try_fold", "map_or_else", "extend"):
                         callers.setdefault(c_, set()).add(f_)
                 have_paths = {b["path"] for b in facts["bodies"]}
                 cren = {}
@@ -1579,7 +1966,14 @@ class Program:
                     owner, _, suffix = b["path"].partition("::{closure#")
                     cs = callers.get(owner)
                     if cs and len(cs) == 1:
-                        np_ = list(cs)[0] + "::{closure#" + suffix
+                        top = list(cs)[0]
+                        for _hop in range(6):        # a helper of a helper: follow the chain of single callers to where the code ended up
+                            c2 = callers.get(top)
+                            if c2 and len(c2) == 1 and list(c2)[0] != top:
+                                top = list(c2)[0]
+                            else:
+                                break
+                        np_ = top + "::{closure#" + suffix
                         if np_ not in have_paths and np_ not in cren.values():
                             cren[b["path"]] = np_
                 if cren:
